@@ -408,3 +408,88 @@ Definition chk_C13 (c : chain_case) (last : option (query * val)) (o : op) (ok :
   | _, _ => []
   end.
 Definition mon_C13 := mon_steps_q chk_C13.
+
+(* ---------- more decidable forms (roles, creation parameters, single-asset preconditions) ---------- *)
+Definition find_position (s : val) (id : string) : option val := find (fun p => String.eqb (position_id p) id) (snap_positions s).
+Definition find_farm (s : val) (id : string) : option val := find (fun f => String.eqb (vgetS (vnth 0 f)) id) (snap_farms s).
+
+(* C15/C08 roles: an accepted close / withdrawal of a position comes from its owner; an accepted expansion from its owner
+   or the pool manager; an accepted farm expansion from the farm's owner; an accepted farm closing from the farm's owner
+   or the contract owner *)
+Definition chk_roles (c : chain_case) (o : op) (ok : bool) (prev cur : val) : list Z :=
+  if negb ok then [] else
+  match o with
+  | Tx sender target (WFm m) _ =>
+      if negb (String.eqb target FM) then [] else
+      let fm_owner := owner_of (vnth 1 (vnth 6 prev)) in
+      match m with
+      | FmPosClose id _ | FmPosWithdraw id _ =>
+          match find_position prev id with Some p => if String.eqb (position_owner p) sender then [] else [15] | None => [15] end
+      | FmPosExpand id =>
+          match find_position prev id with
+          | Some p => if String.eqb (position_owner p) sender || String.eqb sender PM then [] else [15]
+          | None => [15] end
+      | FmExpandFarm fp =>
+          match fp_id fp with
+          | Some id => match find_farm prev id with Some f => if String.eqb (vgetS (vnth 1 f)) sender then [] else [15] | None => [15] end
+          | None => [15] end
+      | FmCloseFarm id =>
+          match find_farm prev id with
+          | Some f => if String.eqb (vgetS (vnth 1 f)) sender || existsb (String.eqb sender) fm_owner then [] else [15]
+          | None => [15] end
+      | _ => []
+      end
+  | _ => []
+  end.
+Definition mon_C15r (c : chain_case) (obs : val) : list Z := (mon_C15 c obs ++ mon_steps chk_roles c obs)%list.
+Definition mon_C08r (c : chain_case) (obs : val) : list Z := (mon_C08 c obs ++ mon_steps chk_roles c obs)%list.
+
+(* C16: an accepted pool creation had 2..4 distinct assets (2 for constant product), as many decimals, a non-zero
+   amplification for stableswap, each fee below 100% and at most 20% in total, and was paid exactly: per denom, the
+   attached funds equal the configured creation fee plus the token-factory fee *)
+Definition sum_denom (cs : list coin) (d : string) : Z := sum_where snd (fun x => String.eqb (fst x) d) cs.
+Definition chk_C16c (c : chain_case) (o : op) (ok : bool) (prev cur : val) : list Z :=
+  if negb ok then [] else
+  match o with
+  | Tx _ target (WPm (PmCreatePool denoms decimals fees pt _)) funds =>
+      if negb (String.eqb target PM) then [] else
+      let n := Z.of_nat (List.length denoms) in
+      let fee := vnth 2 (vnth 0 (vnth 4 prev)) in
+      let fee_c : coin := (vgetS (vnth 0 fee), vgetZ (vnth 1 fee)) in
+      let tf := g_tf_fee (cc_gen c) in
+      let required := (fee_c :: tf)%list in
+      let all_d := (map fst funds ++ map fst required)%list in
+      if (2 <=? n) && (n <=? 4) && (n =? Z.of_nat (List.length decimals)) &&
+         (match pt with ConstantProduct => n =? 2 | StableSwap amp => negb (amp =? 0) end) &&
+         negb (has_dup denoms) &&
+         (match pool_fee_valid fees with Ok _ => true | Err _ => false end) &&
+         forallb (fun d => sum_denom funds d =? sum_denom required d) all_d
+      then [] else [16]
+  | _ => []
+  end.
+Definition mon_C16c (c : chain_case) (obs : val) : list Z := (mon_C16 c obs ++ mon_steps chk_C16c c obs)%list.
+
+(* C14: an accepted single-asset deposit went to a two-asset pool with both reserves non-zero, and when it locks into an
+   existing position that position belongs to the sender *)
+Definition chk_C14s (c : chain_case) (o : op) (ok : bool) (prev cur : val) : list Z :=
+  if negb ok then [] else
+  match o with
+  | Tx sender target (WPm (PmProvide _ _ _ pid u lid)) funds =>
+      if negb (String.eqb target PM) then [] else
+      match single_denom funds with
+      | Some _ =>
+          match find_pool prev pid with
+          | Some p =>
+              let assets := pool_assets p in
+              if Nat.eqb (List.length assets) 2 && forallb (fun a => 0 <? snd a) assets &&
+                 (match u, lid with
+                  | Some _, Some id => match find_position prev id with Some q => String.eqb (position_owner q) sender | None => true end
+                  | _, _ => true end)
+              then [] else [14]
+          | None => [14]
+          end
+      | None => []
+      end
+  | _ => []
+  end.
+Definition mon_C14s (c : chain_case) (obs : val) : list Z := (mon_C14 c obs ++ mon_steps chk_C14s c obs)%list.
